@@ -4,12 +4,17 @@ use rl2tp::avp::types::{self as t, result_code as rc};
 use rl2tp::avp::AVP;
 use rl2tp::common::SliceReader;
 
-fn raw_of_debug(s: &str) -> u32 {
-    // "... { data: 192 }"
-    let i = s.find("data: ").expect("debug format") + 6;
-    let rest = &s[i..];
-    let end = rest.find(|c: char| !c.is_ascii_digit()).unwrap();
-    rest[..end].parse().unwrap()
+/// The private 32-bit word of a bitmask AVP, observed through the encoder (its output is pinned down by C06); the Debug
+/// text, which no property constrains, is deliberately not used.
+fn raw_word(a: &AVP) -> u32 {
+    let mut w = rl2tp::common::VecWriter::new();
+    a.write(&mut w);
+    if w.data.len() == 10 {
+        u32::from_be_bytes([w.data[6], w.data[7], w.data[8], w.data[9]])
+    } else {
+        // cannot happen for a 4-octet kind unless the encoder is broken; make the mismatch visible instead of hiding it
+        0xdead_0000 | (w.data.len() as u32 & 0xffff)
+    }
 }
 
 pub fn msg_type_num(m: &t::MessageType) -> u16 {
@@ -115,8 +120,8 @@ pub fn from_crate(a: &AVP) -> SAvp {
             },
         ),
         AVP::ProtocolVersion(p) => (2, Body::ProtoVer(p.version, p.revision)),
-        AVP::FramingCapabilities(x) => (3, Body::U32(raw_of_debug(&format!("{:?}", x)))),
-        AVP::BearerCapabilities(x) => (4, Body::U32(raw_of_debug(&format!("{:?}", x)))),
+        AVP::FramingCapabilities(_) => (3, Body::U32(raw_word(a))),
+        AVP::BearerCapabilities(_) => (4, Body::U32(raw_word(a))),
         AVP::TieBreaker(x) => (5, Body::U64(x.value)),
         AVP::FirmwareRevision(x) => (6, Body::U16(x.value)),
         AVP::HostName(x) => (7, Body::Blob(x.value.clone())),
@@ -130,8 +135,8 @@ pub fn from_crate(a: &AVP) -> SAvp {
         AVP::CallSerialNumber(x) => (15, Body::U32(x.value)),
         AVP::MinimumBps(x) => (16, Body::U32(x.value)),
         AVP::MaximumBps(x) => (17, Body::U32(x.value)),
-        AVP::BearerType(x) => (18, Body::U32(raw_of_debug(&format!("{:?}", x)))),
-        AVP::FramingType(x) => (19, Body::U32(raw_of_debug(&format!("{:?}", x)))),
+        AVP::BearerType(_) => (18, Body::U32(raw_word(a))),
+        AVP::FramingType(_) => (19, Body::U32(raw_word(a))),
         AVP::CalledNumber(x) => (21, Body::Text(x.value.clone())),
         AVP::CallingNumber(x) => (22, Body::Text(x.value.clone())),
         AVP::SubAddress(x) => (23, Body::Text(x.value.clone())),
